@@ -512,7 +512,7 @@ DT_REGEX = re.compile(
             (
                 (\.(?P<millisecond>[0-9]{3}))?
                 (
-                    \[(?P<gmt_offset_hours>[0-9-+]+)
+                    \[(?P<gmt_offset_hours>[-+]?[0-9]+|[-+])
                     (
                         (\.(?P<gmt_offset_minutes>[0-5][0-9]))?
                         (:(?P<tz_name>.*))?
@@ -679,7 +679,7 @@ TIME_REGEX = re.compile(
     (
         (\.(?P<millisecond>[0-9]{3}))?
         (
-            \[(?P<gmt_offset_hours>[0-9-+]+)
+            \[(?P<gmt_offset_hours>[-+]?[0-9]+|[-+])
             (
                 (\.(?P<gmt_offset_minutes>[0-5][0-9]))?
                 (:(?P<tz_name>.*))?
